@@ -240,6 +240,25 @@ def submit_retry_reset_rules(c, P):
     c.floor(f'{P}.submit-retry-reset', 'reset on job start', started, 1)
 
 
+def _same_key_compare(node, op) -> bool:
+    """`<a>[<k>] <op> <b>[<k>]` with two different plain names a, b and the
+    same plain name k (whatever the variables are called)."""
+    from sa.pat import nf, canon_cmp
+    t = nf(node, True)
+    if t[0] != 'atom':
+        return False
+    cc = canon_cmp(t[1], t[2])      # `not a == b` is `a != b`
+    if cc is None or cc[0] != '==' or cc[3] != (op is ast.Eq):
+        return False
+    a, b = cc[1], cc[2]
+    return (isinstance(a, ast.Subscript) and isinstance(b, ast.Subscript)
+            and isinstance(a.value, ast.Name)
+            and isinstance(b.value, ast.Name)
+            and a.value.id != b.value.id
+            and isinstance(a.slice, ast.Name)
+            and norm(a.slice) == norm(b.slice))
+
+
 def broadcast_prune_rules(c, P):
     """On cancel, a queued broadcast_states insert is dropped only when
     point, namespace and key ALL match the cancelled setting (shared
@@ -258,7 +277,7 @@ def broadcast_prune_rules(c, P):
         if v is None or set(v) != keys:
             continue
         txt = norm(cond)
-        kept_if_any_differs = txt == 'insert[key] != broadcast_change[key]'
+        kept_if_any_differs = _same_key_compare(cond, ast.NotEq)
         # how is the any(...) used?
         par = c.idx.parent.get(id(n))
         neg = isinstance(par, ast.UnaryOp) and isinstance(par.op, ast.Not)
@@ -278,8 +297,8 @@ def broadcast_prune_rules(c, P):
             v = c.fold(g.generators[0].iter)
             par = c.idx.parent.get(id(n))
             neg = isinstance(par, ast.UnaryOp) and isinstance(par.op, ast.Not)
-            if v is not None and set(v) == keys and norm(g.elt) == \
-                    'insert[key] == broadcast_change[key]' and neg:
+            if v is not None and set(v) == keys and _same_key_compare(
+                    g.elt, ast.Eq) and neg:
                 ok = True
                 detail = 'insert dropped only if all three match'
     c.ob(f'{P}.broadcast-prune', f'{w.fq} :: queued inserts dropped only on '
